@@ -64,6 +64,52 @@ class Weaver:
     def printer(self):
         if self.tu is None: raise ExtractionBreak('//@tu missing before use')
         return ast2c.Printer(self.tu, self.tm, dict(rename=self.rename, free=self.free, maythrow=self.maythrow))
+    def nested_records(self, rec, only, skip):
+        """A record declared INSIDE `rec` that is the type of one of the printed fields and has no `//@type` / `//@record` rule of its own
+        (e.g. a local function-object class) is printed in front of the struct, together with its member functions that have bodies
+        (the compiler-generated ones included).  These functions have no contract: they are inlined at their calls; loops in them have no
+        loop contract, so a harness that reaches one is a bounded counter-example search only (./check)."""
+        out = []
+        p = self.printer()
+        ftypes = set()
+        for f in p.all_fields(rec):
+            if (only is not None and f['name'] not in only) or f['name'] in skip: continue
+            q = f['type'].get('desugaredQualType') or f['type'].get('qualType', '')
+            ftypes.add(self.tm.strip_cv(q))
+        for nr in rec.get('inner', []):
+            if nr.get('kind') != 'CXXRecordDecl' or not nr.get('name') or not nr.get('completeDefinition'): continue
+            qn = self.tu.qualname(nr)
+            if qn not in ftypes and qn.replace('Pomerol::', '') not in ftypes: continue
+            dflt = 'struct ' + re.sub(r'\W+', '_', qn.replace('Pomerol::', '').replace('pMPI::', ''))
+            try: c, k = self.tm.lookup(qn)
+            except ExtractionBreak: continue
+            if c != dflt or qn in self.tm.records or qn.replace('Pomerol::', '') in self.tm.records: continue     # the spec models it
+            if qn in getattr(self, 'auto_records', set()): continue
+            self.auto_records = getattr(self, 'auto_records', set()) | {qn}
+            out += self.nested_records(nr, None, ())
+            txt, info = self.printer().struct(nr, c)
+            if not any(x.get('kind') == 'FieldDecl' for x in nr.get('inner', [])):
+                txt = txt.replace('{', '{\n  char verif_empty_;      /* a class without data members */', 1)
+            out.append('/* generated from record %s (nested in %s, printed automatically) */' % (qn, self.tu.qualname(rec))); out.append(txt)
+            self.meta['structs'].append(dict(record=qn, cname=c, notes=info + ['nested record printed automatically']))
+            nctor = {}
+            for fn in self.tu.funcs:
+                frec = self.tu.record_of(fn)
+                if frec is None or frec.get('id') != nr.get('id'): continue
+                pr = self.printer()
+                nparams = len([x for x in fn.get('inner', []) if x.get('kind') == 'ParmVarDecl'])
+                if fn['kind'] == 'CXXConstructorDecl':
+                    if nparams == 1: continue                     # copy / move construction is printed as a struct copy
+                    cname = '%s_ctor%d' % (ast2c.short(c), nparams)
+                elif fn['kind'] == 'CXXDestructorDecl': continue
+                else: cname = pr.method_cname(c, fn['name'], nparams)
+                ftxt, finfo = pr.function(fn, cname, '', {})
+                out.append('/* generated from a member function of the nested record %s (printed automatically, no contract) */' % qn); out.append(ftxt)
+                loc = fn.get('loc', {}); rng = fn.get('range', {})
+                self.meta['functions'].append(dict(qual=qn + '::' + fn['name'], cname=cname, tu=self.tu.path, sha=ast2c.sha(ftxt), loops=finfo['loops'],
+                                                   loops_with_contract=[], auto_extracted=True, dropped=finfo['dropped'], calls=finfo['calls'],
+                                                   has_throw=finfo['has_throw'], line=rng.get('begin', {}).get('line') or loc.get('line')))
+        return out
     def weave(self, spec_path):
         lines = open(spec_path).read().split('\n')
         out = []
@@ -107,8 +153,9 @@ class Weaver:
                 rec = self.tu.find_record(toks[1])
                 c, k = self.tm.lookup(toks[1])
                 p = self.printer()
-                txt, info = p.struct(rec, c, only=kv['only'].split(',') if 'only' in kv else None,
-                                     skip=kv['skip'].split(',') if 'skip' in kv else (), extra='\n'.join(extra),
+                only = kv['only'].split(',') if 'only' in kv else None; skip = kv['skip'].split(',') if 'skip' in kv else ()
+                out += self.nested_records(rec, only, skip)
+                txt, info = p.struct(rec, c, only=only, skip=skip, extra='\n'.join(extra),
                                      embed=kv['embed'].split(',') if 'embed' in kv else ())
                 out.append('/* generated from record %s */' % toks[1]); out.append(txt)
                 self.meta['structs'].append(dict(record=toks[1], cname=c, notes=info))
@@ -145,6 +192,11 @@ class Weaver:
                 i += 1
                 fn = self.tu.find_function(qual)
                 p = self.printer()
+                # VERIF_DROP_LOOPS=<C name>,...: print these functions WITHOUT their loop contracts (the function contract stays).  Used by
+                # ./check when the loop contracts of the spec do not apply to the function as it is now (fewer loops, clauses that name
+                # locals the body no longer has): such a harness is then only searched for counter-examples, never counted as proved.
+                loops_dropped = bool(loops) and cname in [x for x in os.environ.get('VERIF_DROP_LOOPS', '').split(',') if x]
+                if loops_dropped: loops = {}
                 if fpath is not None:
                     txt, info = p.fragment(fn, fpath, cname, '\n'.join(contract), {k: '\n'.join(v) for k, v in loops.items()})
                     qual = qual + ' [statement ' + fpath + ']'
@@ -153,7 +205,7 @@ class Weaver:
                 loc = fn.get('loc', {}); rng = fn.get('range', {})
                 out.append('/* generated from %s (%s) */' % (qual, self.tu.path)); out.append(txt)
                 self.meta['functions'].append(dict(qual=qual, cname=cname, tu=self.tu.path, sha=ast2c.sha(txt),
-                                                   loops=info['loops'], loops_with_contract=sorted(loops), dropped=info['dropped'],
+                                                   loops=info['loops'], loops_with_contract=sorted(loops), loop_contracts_dropped=loops_dropped, dropped=info['dropped'],
                                                    calls=info['calls'], has_throw=info['has_throw'],
                                                    line=rng.get('begin', {}).get('line') or loc.get('line')))
             elif cmd == 'harness':
